@@ -205,7 +205,15 @@ func (h *MetricHandler) WriteResponseCodeMetric(statusCode int) error {
 // emitResponseCodeMetric emits observed response codes to cloud monarch once sample period is over
 func (h *MetricHandler) emitResponseCodeMetric() {
 	log.Printf("WriteResponseCodeMetric|attempting to write metrics at time: %v\n", time.Now())
+	// Iterate over a copy: requests keep updating the counts while the
+	// (slow) writes to the monitoring service are in progress.
+	h.mu.Lock()
+	counts := make(map[string]int64, len(codeCount))
 	for responseCode, count := range codeCount {
+		counts[responseCode] = count
+	}
+	h.mu.Unlock()
+	for responseCode, count := range counts {
 		responseClass := fmt.Sprintf("%sXX", responseCode[0:1])
 		metricLabels := map[string]string{
 			"response_code":       responseCode,
